@@ -20,7 +20,7 @@ MC_SHORT = {
 GEN = {
     "quick": [dict(MaxH=5, G=100, N=4, MaxInvalid=1, MaxLen=5, Tickets="FALSE", Weights="{1, 2}", Loaded="{FALSE, TRUE}")],
     "thorough": [dict(MaxH=5, G=100, N=4, MaxInvalid=1, MaxLen=5, Tickets="FALSE", Weights="{1, 2}", Loaded="{FALSE, TRUE}"),
-                 dict(MaxH=6, G=100, N=5, MaxInvalid=1, MaxLen=5, Tickets="FALSE", Weights="{1, 2}", Loaded="{FALSE, TRUE}")],
+                 dict(MaxH=6, G=100, N=5, MaxInvalid=1, MaxLen=5, Tickets="FALSE", Weights="{1, 2}", Loaded="{FALSE}")],
 }
 SAMPLE = {"quick": 4000, "thorough": 60000}
 # main chain 1..M with tickets from MainFrom on; side chain of K blocks after block F, every ticket placement
